@@ -78,7 +78,7 @@ Alloc(h, at) ==
 \* dict(d): same cells;  deep copy: fresh cells with the current content
 Copy(h, o) == IF SharedNested THEN [heap |-> h, obj |-> o] ELSE Alloc(h, Deref(h, o))
 
-MInit == /\ rel = <<>> /\ ctx = "memo"
+MInit == /\ rel = <<>> /\ ctx = "memo" /\ kord = CanonOrder
          /\ heap = <<>>
          /\ memo = [t \in 1..Len(Texts) |-> [some |-> FALSE, obj |-> NoObj]]
          /\ held = <<>>
